@@ -83,11 +83,11 @@ func judge(sc *scen.Scenario, res *scen.Result, runErr error) (string, error) {
 		return "violation", fmt.Errorf("%s CreateConnection returned nil", where)
 	}
 	if res.Session != nil && res.Session.Exists {
-		return "violation", fmt.Errorf("%s a session was stored by an aborted key exchange", where)
+		return "violation", fmt.Errorf("%s a session was stored by an aborted key exchange (server went on with: %q)", where, sc.Aftermath)
 	}
 	for _, ev := range res.Events {
 		if ev.Kind == "enc" || (ev.Kind == "violation" && strings.Contains(ev.Note, "encrypted frame")) {
-			return "violation", fmt.Errorf("%s the client sent an encrypted message after an inconsistent reply", where)
+			return "violation", fmt.Errorf("%s the client sent an encrypted message after an inconsistent reply (server went on with: %q)", where, sc.Aftermath)
 		}
 	}
 	return "ok", nil
@@ -101,6 +101,13 @@ func evaluate(sc *scen.Scenario) error {
 	cls := []string{"step:" + f.Step, fmt.Sprintf("fault:%s.%s:%s", f.Step, f.Field, f.Kind), "verdict:" + verdict}
 	if res != nil && res.ConnectErr != "" {
 		cls = append(cls, "client-error:"+strings.SplitN(strings.TrimPrefix(res.ConnectErr, "making auth key: "), ":", 3)[0])
+	}
+	if res != nil {
+		for _, n := range res.Notes {
+			if strings.HasPrefix(n, "aftermath sent") {
+				cls = append(cls, n)
+			}
+		}
 	}
 	run.Case(verdict != "inconclusive", evid.Hash(b), cls...)
 	errText := ""
@@ -177,6 +184,8 @@ func TestC07(t *testing.T) {
 				if err != nil {
 					t.Fatalf("INFRA: %v", err)
 				}
+				// the server considers the key established once it answered the last step: it may go on speaking
+				sc.Aftermath = []string{"", "new-session", "bad-salt", "update"}[idx/nsh%4]
 				n++
 				if err := evaluate(sc); err != nil {
 					if strings.HasPrefix(err.Error(), "INFRA:") {
@@ -208,6 +217,7 @@ func TestC07(t *testing.T) {
 			if rapid.Bool().Draw(t, "otherprimes") {
 				sc.HS.P, sc.HS.Q = 65537, 4294967291
 			}
+			sc.Aftermath = rapid.SampledFrom([]string{"", "new-session", "bad-salt", "update"}).Draw(t, "aftermath")
 			if err := evaluate(sc); err != nil {
 				if strings.HasPrefix(err.Error(), "INFRA:") {
 					t.Skipf("%v", err)
